@@ -54,7 +54,8 @@ CONSTANTS
   Points,            \* point ids (positive naturals)
   NFuncs,            \* number of functions of the problem explored by TLC (objective + constraints)
   MaxExec,           \* consecutive executions explored on the same problem
-  AssumeValueFirst,  \* environment assumption DriverAsksValueWithJacobian
+  EnvAssumption,     \* environment assumption on the algorithm's requests: "none" | "valueFirst" |
+                     \* "completesPoint" (see EnvOK)
   Switch             \* explore the reuse of the driver instance on another problem (SwitchProblem)
 
 NanPt == 0
@@ -104,7 +105,7 @@ NoCfg == [kind |-> "opt", N |-> 1, reset |-> TRUE, grad |-> FALSE, useDb |-> TRU
           stopIfNan |-> TRUE, maxTime |-> FALSE, kkt |-> FALSE, nx |-> 2, x0 |-> NanPt, samples |-> <<>>,
           composite |-> FALSE, obs |-> FALSE, sub |-> 0]
 
-IsEmpty(p)  == p \notin DOMAIN outs \/ outs[p] = {}
+IsEmpty(p)  == IF p \in DOMAIN outs THEN outs[p] = {} ELSE TRUE     \* (IF: TLC evaluates both sides of a \/ in an action)
 NonEmpty    == {p \in DOMAIN outs : outs[p] # {}}
 NewFilled   == NonEmpty \ filled0
 MaxReached  == max # 0 /\ cur >= max                      \* EvaluationCounter.maximum_is_reached
@@ -183,11 +184,32 @@ Serve(n, p, rest) ==
      ELSE req' = [st |-> "call", n |-> n, p |-> p, k |-> 0] /\ todo' = rest /\ UNCHANGED <<phase, stop>>
   /\ UNCHANGED <<funcs, cfg, dbv, ctr, lst, at, doev, resv, nexec, histv, origPts, raised>>
 
-(* environment: the optimization algorithm asks anything anywhere *)
+(* environment: the optimization algorithm asks anything anywhere.
+   Environment assumptions (never used to validate recorded runs; EnvAssumption = "none" there):
+     "valueFirst"      DriverAsksValueWithJacobian: a Jacobian is only requested where the value is
+                       already recorded (value-first algorithms: scipy);
+     "completesPoint"  DriverCompletesPoint: the algorithm does not go to another point while an
+                       original callable was entered at a point where nothing is recorded.  Under
+                       this assumption the call budget holds with Jacobians that are not stored
+                       (checked by TLC), and it INCLUDES the gradient-first algorithms (NLopt: Jacobian at a new
+                       iterate, then the value there): a Jacobian request at an unseen point is a
+                       request like any other, served by an original call while the budget lasts and
+                       by MaxIterReachedException once it is spent (JacFirst below).                 *)
+Unrecorded == {q \in origPts : IsEmpty(q)}
+EnvOK(n, p) ==
+  CASE EnvAssumption = "valueFirst"     -> (n[2] = "jac" => (p \in DOMAIN outs /\ <<n[1], "val">> \in outs[p]))
+    [] EnvAssumption = "completesPoint" -> Unrecorded \subseteq {p}
+    [] OTHER                            -> TRUE
 Ask(n, p) ==
   /\ phase = "running" /\ cfg.kind = "opt" /\ req.st = "none"
-  /\ (AssumeValueFirst /\ n[2] = "jac") => (p \in DOMAIN outs /\ <<n[1], "val">> \in outs[p])
+  /\ EnvOK(n, p)
   /\ Serve(n, p, <<>>)
+(* the same with constant-level parameters (TLC labels the transitions with them: the scripted replay
+   reads the request of the behaviour from the label), split in two disjoint actions so that the
+   coverage shows the gradient-first requests: a Jacobian asked at a point whose entry is empty *)
+JacFirst(k, p) == k = "jac" /\ p # NanPt /\ IsEmpty(p)
+AskAt(f, k, p)       == <<f, k>> \in Names /\ ~JacFirst(k, p) /\ Ask(<<f, k>>, p)
+AskJacFirst(f, p)    == <<f, "jac">> \in Names /\ JacFirst("jac", p) /\ Ask(<<f, "jac">>, p)
 
 (* gemseo's own loops: all functions at x0 (pre-run), all functions at the current sample (DOE) *)
 AskOwn ==
@@ -275,10 +297,13 @@ AlgoReturn(c) ==
 
 (* --- a composite algorithm (multi-start, augmented Lagrangian) runs sub-drivers which convert the
        termination exception of a request into a sub-result: the algorithm goes on --- *)
-Resume ==
-  /\ phase = "terminated" /\ cfg.kind = "opt" /\ cfg.composite /\ stop # "Normal"
+(* (ResumeAny: the same for any optimizer - DriverTrace uses it when the log of a recorded run shows
+   that a third-party library lost the termination exception and went on asking) *)
+ResumeAny ==
+  /\ phase = "terminated" /\ cfg.kind = "opt" /\ stop # "Normal"
   /\ phase' = "running" /\ stop' = "none"
   /\ UNCHANGED <<funcs, cfg, dbv, ctr, lst, req, todo, at, doev, resv, nexec, histv, origPts, raised>>
+Resume == cfg.composite /\ ResumeAny
 
 (* --- _get_result / _get_early_stopping_result: when gemseo stopped the run the result is built from
        the recorded history (which recorded point is the optimum is property C04; no optimum is
@@ -340,7 +365,8 @@ Next ==
   \/ SwitchProblem
   \/ \E p \in Points : SeedEmpty(p)
   \/ PreRunDone
-  \/ \E n \in Names, p \in PtsN : Ask(n, p)
+  \/ \E f \in Range(ModelFuncs), k \in {"val", "jac"}, p \in PtsN : AskAt(f, k, p)
+  \/ \E f \in Range(ModelFuncs), p \in PtsN : AskJacFirst(f, p)
   \/ AskOwn
   \/ \E o \in {"ok", "nan", "raise"} : OrigCall(o)
   \/ Store \/ KktPass \/ KktStop
